@@ -12,6 +12,7 @@ import Jrpc.Cancel
 import Jrpc.Keepalive
 import Jrpc.Redial
 import Jrpc.Forwarder
+import Jrpc.Epoch
 /-
   Jrpc.Ops — dispatch of driver operations onto the model's executable definitions.
 -/
@@ -323,6 +324,70 @@ def opForwarder (j : Json) : R Json := do
   return Json.mkObj [("accepted", refused.isNone), ("refusedAt", optJ (fun (n : Nat) => (n : Json)) refused),
                      ("open", s.cases.length)]
 
+/-- op "epoch": the requests served by one reconnecting endpoint (client role with reverse handlers):
+    `req id epoch` (fe.call), `loss` (reconn.begin), `swap` (rc.swap), `write epoch` (the response writer
+    wrote), `stale epoch` (it discarded), `done id epoch` (h.done, keep = false), `cancel id` (fe.cancel).
+    The epoch the code read must be the model's connection count; a response is written iff its
+    request's epoch is the current one.  A request executed between the sweep and the swap (read from
+    the old connection, executed late) is outside the model and skipped together with its return. -/
+def opEpoch (j : Json) : R Json := do
+  let mut s : Epoch.St := {}
+  let mut late : List (Nat × Nat) := []
+  let mut i : Nat := 0
+  let mut stale : Nat := 0
+  let refuse (i : Nat) (why : String) : Json := Json.mkObj [("accepted", false), ("refusedAt", (i : Json)), ("why", why)]
+  for e in arrD j "events" do
+    match (← str e "e") with
+    | "req" =>
+      let id ← nat e "id"
+      let k ← nat e "epoch"
+      if k > s.epoch then
+        return refuse i s!"handleCall read connection epoch {k} while only {s.epoch} connections had been replaced"
+      -- (k < s.epoch: a frame of an earlier connection executed after the swap; its hook ran late)
+      if s.down || k < s.epoch then late := (id, k) :: late
+      else match Epoch.step? true s (.req id) with
+        | some s' => s := s'
+        | none => return refuse i s!"request id {id} is already being handled on this connection"
+    | "loss" => match Epoch.step? true s .loss with
+        | some s' => s := s'
+        | none => pure ()
+    | "swap" => match Epoch.step? true s .swap with
+        | some s' => s := s'
+        | none => return refuse i "a connection was installed although none had been lost"
+    | "write" =>
+      let k ← nat e "epoch"
+      if k != s.epoch then
+        return refuse i s!"a response to a request of connection epoch {k} was written while the epoch is {s.epoch}"
+    | "stale" =>
+      let k ← nat e "epoch"
+      if k == s.epoch then
+        return refuse i s!"a response to a request of the current connection (epoch {k}) was discarded"
+      stale := stale + 1
+    | "done" =>
+      let id ← nat e "id"
+      let k ← nat e "epoch"
+      if late.contains (id, k) then late := late.erase (id, k)
+      else match s.running.find? (fun H => H.id == id && H.epoch == k) with
+        | none => return refuse i s!"a handler for request {id} of epoch {k} returned but none is running"
+        | some H => match Epoch.step? true s (.done H.hid) with
+          | some s' => s := s'
+          | none => return refuse i "done refused"
+    | "cancel" =>
+      let id ← nat e "id"
+      let found ← bool e "found"
+      if !s.down then
+        let want := (Epoch.lookup s.handling id).isSome
+        -- (a request executed late may own an entry the model does not know: only `found = false` is checked)
+        if want && !found then
+          return refuse i s!"xrpc.cancel for request {id} found no handler although one of this connection is running"
+        match Epoch.step? true s (.cancel id) with
+        | some s' => s := s'
+        | none => pure ()
+    | x => throw s!"bad epoch event {x}"
+    i := i + 1
+  return Json.mkObj [("accepted", true), ("epoch", (s.epoch : Json)), ("invocations", (s.all.length : Json)),
+                     ("stale", (stale : Json)), ("running", (s.running.length : Json))]
+
 /-- op "retryloop": the method-level retry loop over the outcomes of its attempts. -/
 def opRetryLoop (j : Json) : R Json := do
   let outs ← (arrD j "outs").mapM (fun o => do
@@ -595,6 +660,7 @@ def run (j : Json) : R Json := do
   | "wscall" => opWsCall j
   | "redial" => opRedial j
   | "forwarder" => opForwarder j
+  | "epoch" => opEpoch j
   | "retryloop" => opRetryLoop j
   | "agree" => opAgree j
   | "perm" => opPerm j
